@@ -29,7 +29,21 @@ func compileMSL(t testing.TB, src string, o msl.Options) (string, msl.Translatio
 
 // knownCorpusMalformed lists corpus shaders whose emitted MSL this package rejects as Malformed,
 // after triage (see the final report). Everything else must parse or be Unsupported.
-var knownCorpusMalformed = map[string]string{}
+var knownCorpusMalformed = map[string]string{
+	// naga defect: two bounds-checked (read-zero-skip-write) accesses are joined by `*` without
+	// parentheses: `c1 ? a : DefaultConstructible() * uint(k) < 2 ? b : DefaultConstructible()`.
+	"7048-multiple-dynamic-1": "RZSW ternaries not parenthesised inside a binary expression",
+	// naga defect: `(a * b).xxyy` is emitted as `a * b.xxyy` (float2 * float4 does not compile).
+	"7048-multiple-dynamic-2": "multi-component swizzle of a binary expression loses its parentheses",
+	// naga defect: under read-zero-skip-write the pointer operand of atomicCompareExchangeWeak becomes
+	// `&uint(i) < 128 ? arr.inner[i] : DefaultConstructible()` (address of a prvalue, ternary as pointer).
+	"atomicCompareExchange": "bounds check spliced into the pointer argument of the compare-exchange helper",
+	// suspected naga defect: `device constant NagaArgumentBufferWrapper<Foo>* const& storage_array`
+	// carries two address-space qualifiers.
+	"binding-buffer-arrays": "two address-space qualifiers on one declaration",
+	// naga defect (mesh shaders): `taskPayload` is used in the task function but never declared.
+	"mesh-shader": "undeclared identifier taskPayload",
+}
 
 // TestCorpusParse parses the MSL naga emits for every corpus shader that compiles: no panic, and
 // Malformed only for triaged cases.
